@@ -22,10 +22,16 @@ def fixed_language():
 
 class MWorld:
     """Mirror of ModelOps.mstate on the implementation side."""
+    CACHE: dict = {}
     def __init__(self, impl, L):
         from maltoolbox.model import Model
         self.L = L
-        self.lg, self.lcf = MG.make_lang(impl, L)
+        # one language graph / class factory per language object and implementation import: generated classes are never freed
+        # (abc registries), and tens of thousands of histories run over a handful of languages
+        key = (id(impl), id(L))
+        if key not in MWorld.CACHE:
+            MWorld.CACHE[key] = (L,) + tuple(MG.make_lang(impl, L))
+        _, self.lg, self.lcf = MWorld.CACHE[key]
         self.m = Model('hist', self.lcf)
         self.assets, self.assocs, self.atts = [], [], []
         self.assoc_meta = []      # (cls, lf, rf) per association handle
